@@ -14,7 +14,9 @@ type tcDriver struct {
 	Entry   *ssa.Function // process.Typecheck
 	Driver  *ssa.Function // function running the phases (goroutine body or Entry)
 	Go      *ssa.Go
-	Phases  []*ssa.Call    // calls to first-party functions whose only result is error
+	Phases  []*ssa.Call    // calls to first-party functions whose only result is error (in PhaseFn)
+	PhaseFn *ssa.Function  // the function that runs the phases: Driver, or the function Driver delegates to
+	Outer   []*ssa.Call    // when PhaseFn != Driver: the call of PhaseFn in Driver
 	Success *ssa.Parameter // success channel parameter of the driver (nil when no goroutine)
 	ErrChan *ssa.Parameter
 }
@@ -42,6 +44,32 @@ func findTypecheckDriver(p *Program) *tcDriver {
 		res := sc.Signature.Results()
 		if res.Len() == 1 && isErrorType(res.At(0).Type()) {
 			d.Phases = append(d.Phases, call)
+		}
+	}
+	// the phases may have been moved into a function of their own whose error the driver
+	// hands on (`if err := runPhases(...); err != nil { errorChan <- err; return }`)
+	d.PhaseFn = d.Driver
+	if len(d.Phases) == 1 {
+		inner := d.Phases[0].Common().StaticCallee()
+		var innerPhases []*ssa.Call
+		for _, c := range p.callsIn(inner) {
+			call, ok := c.(*ssa.Call)
+			if !ok {
+				continue
+			}
+			sc := call.Common().StaticCallee()
+			if sc == nil || !p.isFirstParty(sc) {
+				continue
+			}
+			res := sc.Signature.Results()
+			if res.Len() == 1 && isErrorType(res.At(0).Type()) {
+				innerPhases = append(innerPhases, call)
+			}
+		}
+		if len(innerPhases) >= 2 {
+			d.Outer = d.Phases
+			d.Phases = innerPhases
+			d.PhaseFn = inner
 		}
 	}
 	if d.Go != nil {
@@ -110,8 +138,8 @@ func isPhase(d *tcDriver, in ssa.Instruction) bool {
 
 func runPhaseStop(p *Program, r *RuleResult) {
 	d := findTypecheckDriver(p)
-	v := p.View(d.Driver)
-	fn := fnName(d.Driver)
+	v := p.View(d.PhaseFn)
+	fn := fnName(d.PhaseFn)
 	r.count("driver functions", 1)
 	r.count("phase calls", len(d.Phases))
 	for _, ph := range d.Phases {
@@ -162,6 +190,30 @@ func runPhaseStop(p *Program, r *RuleResult) {
 			r.add(fn, name, Holds, p.instrPos(ph), "no phase reachable from the non-nil edge")
 		}
 	}
+	if d.PhaseFn != d.Driver {
+		// the function holding the phases answers nil only when every phase did
+		for _, b := range v.Blocks() {
+			ins := v.Instrs(b)
+			ret, ok := ins[len(ins)-1].(*ssa.Return)
+			if !ok || len(ret.Results) != 1 || isErrorValue(ret.Results[0], v, b, map[ssa.Value]bool{}) {
+				continue
+			}
+			bad := ""
+			for _, ph := range d.Phases {
+				if ret.Results[0] == ssa.Value(ph) {
+					continue // the last phase's own result is handed back
+				}
+				if !v.holdsAt(b, ph, factNil) {
+					bad = ph.Common().StaticCallee().Name()
+				}
+			}
+			if bad != "" {
+				r.add(fn, "phases-result", Violated, p.instrPos(ret), "the function running the phases can return nil although the result of phase "+bad+" was not established to be nil")
+			} else {
+				r.add(fn, "phases-result", Holds, p.instrPos(ret), "nil only after every phase returned nil")
+			}
+		}
+	}
 }
 
 // sendsOn finds Send instructions, in fn and its closures, whose channel originates in param.
@@ -188,8 +240,12 @@ func runNoDeferredSuccess(p *Program, r *RuleResult) {
 	d := findTypecheckDriver(p)
 	fn := fnName(d.Driver)
 	v := p.View(d.Driver)
+	driverPhases := d.Phases
+	if d.PhaseFn != d.Driver {
+		driverPhases = d.Outer
+	}
 	allNil := func(b *ssa.BasicBlock) (bool, string) {
-		for _, ph := range d.Phases {
+		for _, ph := range driverPhases {
 			if !v.holdsAt(b, ph, factNil) {
 				return false, ph.Common().StaticCallee().Name()
 			}
